@@ -346,14 +346,27 @@ namespace sim
                     unlink(errPath.c_str());
                     return r;
                 }
+                std::string ctx = e.crashContext(plan);
                 if (WIFSIGNALED(st) && (WTERMSIG(st) == SIGXCPU || WTERMSIG(st) == SIGKILL))
-                    cls = o.prop + ".hang cpu-limit";
+                    cls = o.prop + ".hang" + ctx + " cpu-limit";
                 else if (!head.empty())
-                    cls = o.prop + ".sanitizer " + head;
+                    cls = o.prop + ".crash" + ctx + " how=" + head;
                 else if (WIFSIGNALED(st))
-                    cls = o.prop + fmt(".crash signal=%d", WTERMSIG(st));
+                    cls = o.prop + ".crash" + ctx + fmt(" how=signal-%d", WTERMSIG(st));
                 else
-                    cls = o.prop + fmt(".crash exit=%d", WEXITSTATUS(st));
+                    cls = o.prop + ".crash" + ctx + fmt(" how=exit-%d", WEXITSTATUS(st));
+                if (!e.judgesCrashes(o))
+                {
+                    CaseResult rr = haveResult ? r : CaseResult();
+                    if (rr.vclass.empty())
+                    {
+                        rr.inconclusive = true;
+                        rr.probes["crash-or-hang-not-judged-by-this-property"]++;
+                        rr.detail = cls;
+                    }
+                    unlink(errPath.c_str());
+                    return rr;
+                }
                 if (det.empty())
                     det = err.substr(0, 600);
                 // a crash after the result was produced (e.g. in a destructor) is still a crash
@@ -372,7 +385,7 @@ namespace sim
             unlink(errPath.c_str());
             if (!haveResult)
             {
-                r.vclass = o.prop + ".crash no-result";
+                r.vclass = o.prop + ".crash" + e.crashContext(plan) + " how=no-result";
                 return r;
             }
             e.judgeExit(o, plan, r, exitInfo);
@@ -610,10 +623,23 @@ namespace sim
         const Known *matchKnown(const std::vector<Known> &k, const std::string &prop, const std::string &vclass)
         {
             for (auto &f : k)
-                if (f.status == "open" && f.property == prop && !f.signature.empty() &&
-                    vclass.compare(0, f.signature.size(), f.signature) == 0 &&
-                    (vclass.size() == f.signature.size() || vclass[f.signature.size()] == ' '))
+            {
+                if (f.status != "open" || f.property != prop || f.signature.empty())
+                    continue;
+                std::string sig = f.signature, cls = vclass;
+                // "<prop>.* key=value": any clause, for a component that is broken beyond a single clause
+                size_t star = sig.find(".* ");
+                if (star != std::string::npos)
+                {
+                    size_t sp = cls.find(' ');
+                    if (sp == std::string::npos || cls.compare(0, star + 1, sig, 0, star + 1) != 0)
+                        continue;
+                    sig = sig.substr(star + 3);
+                    cls = cls.substr(sp + 1);
+                }
+                if (cls.compare(0, sig.size(), sig) == 0 && (cls.size() == sig.size() || cls[sig.size()] == ' '))
                     return &f;
+            }
             return nullptr;
         }
 
@@ -721,6 +747,18 @@ namespace sim
                             "[--budget S] [--out F] [--replay F [--expect CLASS]] [--known F] [--case I] [--hashes F]\n");
         }
     }  // namespace
+
+    void finishCaseNow(const CaseResult &r)
+    {
+        if (g_childFd < 0)
+            throw std::runtime_error("finishCaseNow outside a forked case");
+        Json m = Json::object();
+        m["t"] = "result";
+        m["r"] = r.toJson();
+        writeAll(g_childFd, m.dump() + "\n");
+        fflush(nullptr);
+        _exit(0);
+    }
 
     int engineMain(Engine &e, int argc, char **argv)
     {
